@@ -8,6 +8,7 @@ import (
 	"os"
 	"path/filepath"
 	"strings"
+	"time"
 )
 
 // files to handle
@@ -53,7 +54,14 @@ func (u *uploader) findWork() work {
 		} else if strings.HasPrefix(fi.Name(), "local.") {
 			// skip
 		} else if strings.HasSuffix(fi.Name(), ".json") && mode == "on" {
-			// Collect reports that are ready for upload.
+			// Collect reports that are ready for upload. Only <date>.json is a
+			// report this package wrote: anything else a user left here (a copy
+			// of an unfiltered local report under another name, say) is not ours
+			// to send.
+			if !isReportName(fi.Name()) {
+				u.logger.Printf("Ignoring %s: not the name of a report", fi.Name())
+				continue
+			}
 			reportDate := u.uploadReportDate(fi.Name())
 			if !asof.IsZero() && !reportDate.IsZero() {
 				// If both the mode asof date and the report date are present, do the
@@ -99,4 +107,14 @@ func (u *uploader) findWork() work {
 		}
 	}
 	return ans
+}
+
+// isReportName reports whether name is YYYY-MM-DD.json for a valid date.
+func isReportName(name string) bool {
+	date, ok := strings.CutSuffix(name, ".json")
+	if !ok || len(date) != len(dateFormat) {
+		return false
+	}
+	_, err := time.Parse(dateFormat, date)
+	return err == nil
 }
